@@ -608,6 +608,10 @@ def decide(root, prop, tier, seed, scratch, t0, ev_path):
             n = 1 + len(c.requires) + len(c.ensures) + sum(len(l["invariant"]) + len(l["ensures"]) + (1 if l["decreases"] else 0) for l in c.loops.values())
             entry = dict(function=fi["path"], unit=ur["unit"], src_sha256_16=fi["sha"], backend="verus",
                          status="proved" if fi["verified"] else "contract assumed here (%s)" % (fi["trusted_by"] or "proved in its own unit"))
+            if fi.get("variant"):
+                entry["status"] = "known-finding twin (weaker precondition; not counted)"
+                fn_list.append(entry)
+                continue
             if fi["verified"] and not ur["undecided"]:
                 obligations += n
                 nf = len(failed_fns.get(sid, []))
@@ -691,6 +695,7 @@ def decide(root, prop, tier, seed, scratch, t0, ev_path):
     printed = []
     nviol = 0
     seen = set()
+    known_hits = []
     playback_budget = int(os.environ.get("VERIF_PLAYBACKS", "2"))
     for v in violations:
         if v["oid"] in seen:
@@ -698,6 +703,7 @@ def decide(root, prop, tier, seed, scratch, t0, ev_path):
         seen.add(v["oid"])
         k = known_match(known, prop, v["oid"])
         if k:
+            known_hits.append(dict(obligation=v["oid"], finding=k["what"]))
             printed.append("KNOWN-FINDING: property=%s %s [%s]" % (prop, k["what"], v["oid"]))
             continue
         nviol += 1
@@ -736,7 +742,7 @@ def decide(root, prop, tier, seed, scratch, t0, ev_path):
         rc = 2
     for ln in printed:
         print(ln)
-    cover = dict(vacuity=vac, ures=ures, kres=kres, exp_dt=exp_dt, smt_s=smt_s, kani_time=kani_time, bounded=bounded, rewrites=rewrites,
+    cover = dict(known_hits=known_hits, vacuity=vac, ures=ures, kres=kres, exp_dt=exp_dt, smt_s=smt_s, kani_time=kani_time, bounded=bounded, rewrites=rewrites,
                  other=other, undecided=undecided, units=units)
     write_evidence(ev_path, prop, tier, seed, t0, cover, fn_list, samples, sorted(trusted), violations, dict(
         obligations=obligations, discharged=discharged, nviol=nviol))
@@ -786,7 +792,8 @@ def write_evidence(path, prop, tier, seed, t0, cover, fn_list, samples, trusted,
                                rustc_expansion=round(cover.get("exp_dt", 0.0), 2)),
             extraction=dict(source="cargo +nightly rustc --lib -- -Zunpretty=expanded on a scratch copy of /repo's working tree",
                             rewrites=cover.get("rewrites", [])),
-            failed_obligations=[v["oid"] for v in violations],
+            known_findings_reported=cover.get("known_hits", []),
+            failed_obligations=[v["oid"] for v in violations if not any(v["oid"] == kh["obligation"] for kh in cover.get("known_hits", []))],
             failures_in_functions_not_tagged_with_this_property=[v["oid"] for v in cover.get("other", [])],
             undecided=und,
             exhaustive=False,
